@@ -38,6 +38,10 @@ def scenario_families(rnd, tier):
     fams.append((Bbig, [1, 3], "corrupt=20000", "BIG first multi-block part corrupted"))
     fams.append((Bbig, [1, 3], "corrupt=%d" % (40010 + 69000), "BIG second multi-block part corrupted"))
     fams.append((Bbig, [3], "corrupt=5", "BIG plain range corrupted"))
+    # two multipart responses in one session (as zckdl does when the server limits the ranges per request), each
+    # with its own boundary; the partitions are applied to the SECOND response
+    B3 = mkB(8, [12, 25], 0)
+    fams.append((B3, [1, 3, 5, 7], "", "SESSION second multipart response of a session, new boundary"))
     bsel = BOUNDARIES if tier == "thorough" else ["3d6b6a416f9b5", "a_b-c", "simple.boundary", "x:y=z", "plus+sign", "paren(s)", "q?mark"]
     for b in bsel:
         fams.append((B1, [1, 4], "boundary=%s%s" % (b, " quoted=1" if rnd.random() < 0.5 else ""), "boundary %s" % b))
@@ -62,13 +66,19 @@ def run(tier):
             T[a:z] = corpus.rand(rnd, z - a)
         T = bytes(T)
         # the one-call run tells us the body length
-        base = delta.Scenario("f%d-base" % fi, wd, B, T, limit=-1, frag=0, rounds=1, final=False, fetch_opts=opts, name="%s: one call" % tag)
+        session = tag.startswith("SESSION")
+        lim, nrounds, cutr = (2, 2, 1) if session else (-1, 1, 0)
+        def ropts(popt):
+            if not session:
+                return None
+            return {0: "boundary=first-resp", 1: ("boundary=second+resp " + popt).strip()}
+        base = delta.Scenario("f%d-base" % fi, wd, B, T, limit=lim, frag=0, rounds=nrounds, final=False, fetch_opts=opts, round_opts=ropts(""), name="%s: one call" % tag)
         base.write_files()
         evs = common.run_driver(base.script(), "plain")
         fe = [e for e in evs if e["op"] == "fetch"]
         if not fe:
             raise Broken("baseline fetch did not run for family %s" % tag)
-        bl = fe[0].get("bodylen", 0)
+        bl = fe[cutr].get("bodylen", 0) if len(fe) > cutr else 0
         base_events = [e for e in evs if e.get("case") == base.cid]
         parts = [("1-byte", "", 1)]
         if tag.startswith("BIG"):
@@ -97,7 +107,11 @@ def run(tier):
                 parts.append(("cuts " + ",".join(map(str, cs)), "cuts=" + ",".join(map(str, cs)), 0))
         members = []
         for pi, (pname, popt, frag) in enumerate(parts):
-            sc = delta.Scenario("f%d-p%d" % (fi, pi), wd, B, T, limit=-1, frag=frag, rounds=1, final=False, fetch_opts=(opts + " " + popt).strip(), name="%s: %s" % (tag, pname))
+            if session:
+                sc = delta.Scenario("f%d-p%d" % (fi, pi), wd, B, T, limit=lim, frag=0, rounds=nrounds, final=False, fetch_opts=opts,
+                                    round_opts=ropts(popt if popt else "cuts=" + ",".join(str(x) for x in range(1, bl))), name="%s: %s" % (tag, pname))
+            else:
+                sc = delta.Scenario("f%d-p%d" % (fi, pi), wd, B, T, limit=-1, frag=frag, rounds=1, final=False, fetch_opts=(opts + " " + popt).strip(), name="%s: %s" % (tag, pname))
             sc.write_files(); members.append(sc); scs.append(sc)
         groups.append((base, base_events, members, tag))
     nproc = 14
